@@ -132,6 +132,30 @@ def check_compaction(db, res):
   res.ob(clamp_ok, "compact|ncdof-clamp", Finding("R-CAP.4", "island._compact_dofs|ncdof|clamp", "ncdof is not clamped to nvmax on overflow (readers use it as a loop bound)", lc.ev.loc))
 
 
+def _cleared_before(db, lc, root) -> bool:
+  """on the forward() trace, every launch of this kernel is preceded - on a dominating path, inside the same function - by a
+  full definition (host fill / copy, or an unconditional own-index store) of the array bound to `root`"""
+  from .. import effects
+  from ..rules import r_live
+
+  hi = db.trace("forward.forward")
+  effs = effects.trace_effects(db, hi)
+  found = False
+  for j, e in enumerate(effs):
+    if e.ev.kind != "launch" or e.lc is None or e.lc.name != lc.name:
+      continue
+    hv = e.lc.binding.get(root)
+    keys = effects._keys(hv) if hv is not None else []
+    if len(keys) != 1:
+      return False
+    k = keys[0]
+    fn = e.ev.stack[-1] if e.ev.stack else None
+    if not any(i < j and fn in d.ev.stack and r_live._is_full_def(d, k) and set(d.ev.pc) <= set(e.ev.pc) for i, d in enumerate(effs)):
+      return False
+    found = True
+  return found
+
+
 def run(db, res, tier):
   check_compaction(db, res)
 
@@ -153,19 +177,28 @@ def run(db, res, tier):
   res.floor("scatter outputs", n_sc, 3)
 
   # (3) gather kernels read full-space vectors through cdof_dof and write the compact slot of the thread
-  n_g = 0
+  g_roots = set()
   for key in ("solver._gather_dof_vecs_compact", "solver._gather_rhs_compact"):
     for lc in _lc(db, key)[:1]:
       dof = T("ld", "cdof_dof_in", T("tid", 0), T("tid", 1))
       for a in lc.keval.accesses:
         if not a.is_write:
           continue
-        n_g += 1
+        g_roots.add((key, a.root))
         v = a.value
         okv = isinstance(v, T) and ((v.op == "ld" and v.args[1:] == (T("tid", 0), dof)) or (v.op == "c" and v.args[0] == 0.0))
         oki = a.idx[:2] == (T("tid", 0), T("tid", 1))
+        if not (okv and oki):
+          # scatter form of the same map: thread i of the full space writes slot ci = dof_cdof[world, i] (ci >= 0). The
+          # slots no active dof maps to are not touched, so the array must be fully (re)defined earlier in the same call.
+          ci = T("ld", "dof_cdof_in", T("tid", 0), T("tid", 1))
+          form = len(a.idx) >= 2 and a.idx[0] is T("tid", 0) and a.idx[1] is ci and isinstance(v, T) and v.op == "ld" and v.args[1:] == (T("tid", 0), T("tid", 1)) and any(t.op == "cmp" and t.args[0] == ">=" and t.args[1] is ci and pol for t, pol in pc_literals(a.pc))
+          bound = lc.host("dof_cdof_in")
+          form = form and bound is not None and bound.text.endswith(".dof_cdof")
+          if form and _cleared_before(db, lc, a.root):
+            okv = oki = True
         res.ob(okv and oki, f"{key}|{a.root}", Finding("R-GATE.12", f"{key}|{a.root}|gather-map", f"`{a.root}[{', '.join(show(i) for i in a.idx)}] = {show(v)[:60]}` does not gather x[world, cdof_dof[world, ci]] into compact slot ci", a.loc))
-  res.floor("gather writes", n_g, 6)
+  res.floor("gathered compact vectors", len(g_roots), 4)
   # (4) the compact workspace is rebuilt from scratch on every solve: the compacted Jacobian is cleared before the gather
   # writes the active columns (columns vacated when the active set shrinks must not keep stale entries)
   from ..rules import r_live
